@@ -181,7 +181,12 @@ func genC15(t *rapid.T) c15Case {
 			case 4:
 				p = append(p, evmgen.Stmt{Op: "delegatecall", A: target})
 			case 5:
-				p = append(p, evmgen.Stmt{Op: "create", B: "0", Data: evmgen.CompileHex(evmgen.Program{{Op: "selfdestruct", A: target}})})
+				init := evmgen.Program{{Op: "selfdestruct", A: target}}
+				if rapid.Bool().Draw(t, "initstores") {
+					// the constructor writes storage before destroying itself: deletion must still be complete
+					init = append(evmgen.Program{{Op: "sstore", A: "1", B: "0x2a"}, {Op: "sstore", A: "2", B: "0x2b"}}, init...)
+				}
+				p = append(p, evmgen.Stmt{Op: "create", B: strconv.Itoa(rapid.IntRange(0, 5).Draw(t, "createval")), Data: evmgen.CompileHex(init)})
 			}
 		}
 		addr := poolAddr(len(w.Contracts))
@@ -215,8 +220,14 @@ func genC15(t *rapid.T) c15Case {
 				// creation by key 0 / 1 (may land on a pre-placed account)
 				p.From, p.To = rapid.IntRange(0, 1).Draw(t, "creator"), ""
 				p.Data = evmgen.CompileHex(evmgen.Program{{Op: "sstore", A: "1", B: "0x5"}, {Op: "return", N: 0}})
-				if rapid.Bool().Draw(t, "deploycode") {
+				switch rapid.IntRange(0, 3).Draw(t, "deploykind") {
+				case 0:
 					p.Data = hexInit(evmgen.Compile(evmgen.Program{{Op: "sinc", A: "2"}}))
+				case 1:
+					// constructor stores, then self-destructs (towards a protected address, the sender or nowhere)
+					ben := rapid.SampledFrom(append([]string{chain.K(p.From).Addr.Hex(), zeroAddr}, protected...)).Draw(t, "ctorben")
+					p.Data = evmgen.CompileHex(evmgen.Program{{Op: "sstore", A: "1", B: "0x2a"}, {Op: "sstore", A: "2", B: "0x2b"}, {Op: "selfdestruct", A: ben}})
+					p.Value = rapid.SampledFrom([]string{"0", "7"}).Draw(t, "ctorval")
 				}
 			case 5:
 				p.From = 3 // possibly a vesting sender
@@ -306,8 +317,12 @@ func runC15(cs c15Case) *Outcome {
 				}
 				hadStuff := x.CodeHash != "" || x.HasStorage || x.Seq > 0 || !x.Balances.IsZero()
 				gone := x.Exists && !y.Exists
+				// a creation tx whose constructor self-destructs: the account at the created address (possibly a
+				// pre-placed plain account holding coins, which CREATE legitimately takes over) did self-destruct
+				ctorDestructs := tr.Built.Eth.To() == nil && a == crypto.CreateAddress(sender, tr.Built.Eth.Nonce()) &&
+					strings.HasPrefix(tr.Built.Plan.Data, "602a600155602b60025573") && strings.HasSuffix(tr.Built.Plan.Data, "ff00")
 				if gone {
-					if hadStuff && !canDestruct[strings.ToLower(a.Hex())] {
+					if hadStuff && !canDestruct[strings.ToLower(a.Hex())] && !ctorDestructs {
 						o.dev("", "b%d t%d: account %s (code=%v storage=%v nonce=%d balances=%s) disappeared without self-destructing", bi, ti, a.Hex(), x.CodeHash != "", x.HasStorage, x.Seq, x.Balances)
 					}
 					if !y.Balances.IsZero() || y.CodeHash != "" || y.HasStorage {
